@@ -24,6 +24,14 @@ fn main() {
         let c2 = c + 11;
         let d = rest[c2..].find('>').unwrap() + c2;
         let output = rest[c2..d].trim();
+        if name == "put_object" {
+            // the upload body is drained so that the replay sees how many bytes the backend gets and how the stream ends
+            out.push_str(&format!(
+                "    async fn {name}(&self, req: s3s::S3Request<s3s::dto::{input}>) -> s3s::S3Result<s3s::S3Response<s3s::dto::{output}>> {{\n        self.record(\"{name}\", &req.credentials);\n        let mut n = 0usize; let mut end = String::from(\"clean\");\n        if let Some(mut b) = req.input.body {{ use futures::StreamExt; while let Some(x) = b.next().await {{ match x {{ Ok(bytes) => n += bytes.len(), Err(e) => {{ end = format!(\"error: {{e}}\"); break; }} }} }} }}\n        self.log.lock().unwrap().push(format!(\"put_object.body bytes={{n}} end={{end}} content_length={{:?}}\", req.input.content_length));\n        if end != \"clean\" {{ return Err(s3s::S3Error::with_message(s3s::S3ErrorCode::IncompleteBody, end)); }}\n        self.answer(\"{name}\")\n    }}\n"
+            ));
+            n += 1;
+            continue;
+        }
         out.push_str(&format!(
             "    async fn {name}(&self, req: s3s::S3Request<s3s::dto::{input}>) -> s3s::S3Result<s3s::S3Response<s3s::dto::{output}>> {{\n        self.record(\"{name}\", &req.credentials);\n        self.answer(\"{name}\")\n    }}\n"
         ));
